@@ -3,7 +3,7 @@
 # trying generator changes on the unchanged tree while /repo itself is being patched by a seed run.  -> /tmp/corr_clean
 export GOFLAGS=-mod=mod GOPROXY=off GOSUMDB=off GOTOOLCHAIN=local
 [ -d /tmp/repo-clean ] || git -C /repo worktree add --detach /tmp/repo-clean HEAD >/dev/null 2>&1
-git -C /tmp/repo-clean checkout -q --detach $(git -C /repo rev-parse HEAD) 2>/dev/null
+git -C /tmp/repo-clean reset -q --hard; git -C /tmp/repo-clean clean -fdq; git -C /tmp/repo-clean checkout -q --detach $(git -C /repo rev-parse HEAD) 2>/dev/null
 rm -rf /tmp/harness-clean && mkdir -p /tmp/harness-clean && cp -r /verif/harness/*.go /verif/harness/go.mod /verif/harness/go.sum /verif/harness/cmd /tmp/harness-clean/
 sed -i 's#=> /repo#=> /tmp/repo-clean#' /tmp/harness-clean/go.mod
 cd /tmp/harness-clean && go build -tags verif -o /tmp/corr_clean . && echo built /tmp/corr_clean
